@@ -435,65 +435,94 @@ fn search_c12(budget: usize) {
     println!("{{\"status\":\"not-found\",\"tried\":{}}}", tried);
 }
 
+// a stream whose write() outcomes are scripted: deterministic short writes, EINTR, EAGAIN/EPIPE, zero
+struct ScriptedStream { inner: UnixStream, script: Vec<i64>, pos: usize, accepted: std::rc::Rc<std::cell::RefCell<Vec<u8>>>, touched: std::rc::Rc<std::cell::Cell<usize>> }
+impl Read for ScriptedStream { fn read(&mut self, b: &mut [u8]) -> std::io::Result<usize> { self.inner.read(b) } }
+impl Write for ScriptedStream {
+    fn write(&mut self, b: &[u8]) -> std::io::Result<usize> {
+        self.touched.set(self.touched.get() + 1);
+        let op = if self.pos < self.script.len() { self.script[self.pos] } else { i64::MAX };
+        self.pos += 1;
+        match op {
+            -1 => Err(std::io::Error::from(std::io::ErrorKind::Interrupted)),
+            -2 => Err(std::io::Error::from(std::io::ErrorKind::WouldBlock)),
+            -3 => Err(std::io::Error::from(std::io::ErrorKind::BrokenPipe)),
+            0 => Ok(0),
+            k => { let n = (k as usize).min(b.len()); self.accepted.borrow_mut().extend_from_slice(&b[..n]); Ok(n) }
+        }
+    }
+    fn flush(&mut self) -> std::io::Result<()> { Ok(()) }
+}
+impl vmm_sys_util::sock_ctrl_msg::ScmSocket for ScriptedStream { fn socket_fd(&self) -> std::os::unix::io::RawFd { self.inner.as_raw_fd() } }
+
 fn search_c06(budget: usize) {
-    // small socket buffers force short writes; the reader drains a few bytes at a time
     let mut rng = Rng(0xA0761D6478BD642F);
     let mut tried = 0;
-    while tried < budget / 20 + 1 {
-        let (rx, tx) = UnixStream::pair().unwrap();
-        let sz: libc::c_int = 1024;
-        unsafe {
-            libc::setsockopt(tx.as_raw_fd(), libc::SOL_SOCKET, libc::SO_SNDBUF, &sz as *const _ as *const libc::c_void, 4);
-            libc::setsockopt(rx.as_raw_fd(), libc::SOL_SOCKET, libc::SO_RCVBUF, &sz as *const _ as *const libc::c_void, 4);
-        }
-        tx.set_nonblocking(true).unwrap();
-        rx.set_nonblocking(true).unwrap();
-        let mut c = HttpConnection::new(tx);
-        let mut expect = vec![];
-        let mut wire = vec![];
-        let n = 1 + rng.below(5);
+    while tried < budget {
+        let (a, _b) = UnixStream::pair().unwrap();
+        let accepted = std::rc::Rc::new(std::cell::RefCell::new(vec![]));
+        let touched = std::rc::Rc::new(std::cell::Cell::new(0usize));
+        let nops = 3 + rng.below(40);
+        let script: Vec<i64> = (0..nops).map(|_| match rng.below(12) { 0 => -1, 1 => 1, 2 => 7, 3 => 64, 4 => 700, 5 => i64::MAX, 6 => -1, 7 => 3, _ => 1 + rng.below(300) as i64 }).collect();
+        let fail_at = if rng.chance(30) { Some(rng.below(nops)) } else { None };
+        let mut script = script;
+        if let Some(k) = fail_at { script[k] = [0i64, -2, -3][rng.below(3)]; }
+        let mut c = HttpConnection::new(ScriptedStream { inner: a, script: script.clone(), pos: 0, accepted: accepted.clone(), touched: touched.clone() });
+        let mut expect: Vec<u8> = vec![];       // concatenation of the serialisations, in enqueue order
+        let mut discarded_at: Option<usize> = None;
+        let mut log = vec![];
+        let nresp = 1 + rng.below(5);
         let mut queued = 0;
         let mut steps = 0;
-        while (queued < n || c.pending_write()) && steps < 20000 {
+        while steps < 400 && (queued < nresp || c.pending_write()) {
             steps += 1;
-            if queued < n && rng.chance(30) {
-                let mut r = Response::new(Version::Http11, StatusCode::OK);
-                let body: Vec<u8> = (0..rng.below(9000)).map(|k| b'a' + ((k + queued) % 26) as u8).collect();
+            if queued < nresp && rng.chance(35) {
+                let mut r = Response::new(if rng.chance(50) { Version::Http10 } else { Version::Http11 }, StatusCode::OK);
+                let body: Vec<u8> = (0..rng.below(900)).map(|k| b'a' + ((k + queued) % 26) as u8).collect();
                 r.set_body(Body::new(body));
                 let mut ser = vec![];
                 r.write_all(&mut ser).unwrap();
-                expect.extend(ser);
+                if discarded_at.is_none() || true { expect.extend(ser); }
                 c.enqueue_response(r);
                 queued += 1;
+                log.push(format!("enqueue#{}", queued));
+                continue;
             }
             let had = c.pending_write();
-            match c.try_write() {
-                Ok(()) => {}
+            let t0 = touched.get();
+            let before = accepted.borrow().len();
+            let r = c.try_write();
+            let wrote = accepted.borrow().len() - before;
+            log.push(format!("write->{}", match &r { Ok(()) => format!("Ok(+{})", wrote), Err(e) => err_kind(e) }));
+            let desc = || format!("script {:?}; calls: {}", script, log.join(" "));
+            if touched.get() - t0 > 1 { found("C06", desc(), format!("{} stream writes in one try_write", touched.get() - t0), "at most one".into()); }
+            match r {
                 Err(micro_http::ConnectionError::InvalidWrite) => {
-                    if had { found("C06", format!("{} responses queued", queued), "InvalidWrite while output was pending".into(), "Ok".into()); }
+                    if had { found("C06", desc(), "InvalidWrite although output was pending".into(), "a write".into()); }
+                    if touched.get() != t0 { found("C06", desc(), "InvalidWrite but the stream was touched".into(), "stream untouched".into()); }
                 }
                 Err(micro_http::ConnectionError::ConnectionClosed) => {
-                    // EAGAIN is reported as closed by design: stop this round
-                    break;
+                    if c.pending_write() { found("C06", desc(), "pending output after the connection reported closed".into(), "everything discarded".into()); }
+                    // what was discarded is no longer owed: realign the expectation with what was accepted so far
+                    let acc = accepted.borrow().clone();
+                    if !expect.starts_with(&acc) { found("C06", desc(), format!("accepted bytes are not a prefix (at failure): ...{}", esc(&acc[acc.len().saturating_sub(30)..])), "a prefix of the concatenated responses".into()); }
+                    expect = acc;
+                    discarded_at = Some(steps);
                 }
-                Err(e) => found("C06", "write".into(), format!("{:?}", err_kind(&e)), "Ok/InvalidWrite/ConnectionClosed".into()),
+                Ok(()) => { if !had { found("C06", desc(), "Ok with nothing pending".into(), "InvalidWrite".into()); } }
+                Err(e) => found("C06", desc(), err_kind(&e), "Ok / InvalidWrite / ConnectionClosed".into()),
             }
-            let mut b = vec![0u8; 1 + rng.below(3000)];
-            let mut rxr = &rx;
-            if let Ok(k) = rxr.read(&mut b) { wire.extend_from_slice(&b[..k]); }
-            if !expect.starts_with(&wire) {
-                let p = wire.iter().zip(expect.iter()).position(|(a, b)| a != b).unwrap_or(wire.len().min(expect.len()));
-                found("C06", format!("{} responses, short writes", queued), format!("byte {} on the wire differs / is extra: ...{}", p, esc(&wire[p.saturating_sub(20)..(p + 20).min(wire.len())])),
-                      format!("a prefix of the concatenated responses: ...{}", esc(&expect[p.saturating_sub(20)..(p + 20).min(expect.len())])));
+            let acc = accepted.borrow();
+            if !expect.starts_with(&acc) {
+                let p = acc.iter().zip(expect.iter()).position(|(x, y)| x != y).unwrap_or(acc.len().min(expect.len()));
+                found("C06", desc(), format!("byte {} accepted by the stream is wrong/extra: ...{}", p, esc(&acc[p.saturating_sub(15)..(p + 15).min(acc.len())])),
+                      format!("a prefix of the concatenated responses: ...{}", esc(&expect[p.saturating_sub(15)..(p + 15).min(expect.len())])));
+            }
+            if c.pending_write() != (acc.len() < expect.len()) {
+                found("C06", desc(), format!("pending_write() == {} with {} of {} bytes accepted", c.pending_write(), acc.len(), expect.len()), "pending exactly while bytes remain".into());
             }
         }
-        let mut rxr = &rx;
-        let mut b = vec![0u8; 65536];
-        while let Ok(k) = rxr.read(&mut b) { if k == 0 { break; } wire.extend_from_slice(&b[..k]); }
         tried += 1;
-        if !c.pending_write() && steps < 20000 && queued == n && wire != expect && expect.starts_with(&wire) == false {
-            found("C06", format!("{} responses", queued), format!("{} bytes on the wire", wire.len()), format!("{} bytes", expect.len()));
-        }
     }
     println!("{{\"status\":\"not-found\",\"tried\":{}}}", tried);
 }
